@@ -205,6 +205,26 @@ def real_tree(root):
     return out
 
 
+TWIN_CSVS = ["codec_features_twins.csv", "codec_features_twins_rev.csv"]
+# families of near-identical columns in the twin corpus (tools/gen_twins_csv.py)
+TWIN_FAMILIES = {
+    "minimal": ["minimal", "minimal_twin", "minimal_pb"],
+    "qm": ["qm_a", "qm_b", "qm_c"],
+    "fields": ["fields"],
+    "lossless": ["lossless", "lossless_10bit"],
+    "ld": ["ld", "ld_pb"],
+    "frag": ["frag", "frag2"],
+}
+TWIN_QUICK = [["minimal", "qm", "fields"], ["lossless", "ld", "frag"]]
+
+
+def fresh_python_start(args, hash_seed):
+    env = dict(os.environ)
+    env["PYTHONHASHSEED"] = str(hash_seed)
+    env.pop("VERIF_NO_REEXEC", None)
+    return subprocess.Popen([PY, "-c", BOOT % {"repo": REPO, "pictures": PICTURES}] + args, env=env, stdout=subprocess.PIPE, stderr=subprocess.PIPE, cwd="/")
+
+
 POLICIES = ["random", "rtc", "rtc", "pct", "pct", "coarse", "coarse", "bursty", "bursty"]
 
 
@@ -252,6 +272,24 @@ class C24(Spec):
         self.verif_seed = verif_seed
 
     def generate(self, rng, idx, tier):
+        if idx % 80 == 39:
+            # multi-column arm (fresh interpreters only): ONE serial process
+            # generating several near-identical ("twin") columns, against the
+            # emitted worker commands run in separate fresh processes
+            if tier == "thorough":
+                fams = sorted(rng.sample(sorted(TWIN_FAMILIES), rng.choice([2, 3, 3, 4])))
+                csvname = rng.choice(TWIN_CSVS)
+            else:
+                fams = TWIN_QUICK[(idx // 80) % 2]
+                csvname = TWIN_CSVS[(idx // 80) % 2]
+            return {
+                "multi": True,
+                "csv": csvname,
+                "families": fams,
+                "hash_seeds": [rng.randrange(1, 1 << 31) for _ in range(3)],
+                "groups": rng.choice([2, 3]),
+                "order_seed": rng.randrange(1 << 30),
+            }
         if idx % 80 == 79:
             # fresh-interpreter arm: real processes, run one after another in a
             # seeded permuted order, each with its own PYTHONHASHSEED
@@ -338,9 +376,73 @@ class C24(Spec):
         finally:
             shutil.rmtree(scratch, ignore_errors=True)
 
+    def execute_multi(self, case):
+        stats = Counter()
+        cols = [c for f in case["families"] for c in TWIN_FAMILIES.get(f, [])]
+        csvpath = os.path.join(VERIF, "corpus", case["csv"])
+        regex = "^(%s)$" % "|".join(cols)
+        scratch = tempfile.mkdtemp(prefix="vc2_c24m_", dir="/var/tmp")
+        events = [("multi", case["csv"], list(case["families"]), case["hash_seeds"], case["groups"], case["order_seed"])]
+        key = "multi|%s|%s" % (case["csv"], "+".join(case["families"]))
+        hs = case["hash_seeds"]
+
+        def viol(sig, detail):
+            return Outcome(VIOLATION, events, sig=sig, detail=detail, stats=stats, nontrivial=True, key=key)
+
+        serial_proc = None
+        try:
+            if not cols:
+                return Outcome(DISCARD, events, stats=stats)
+            out_s, out_w = os.path.join(scratch, "serial"), os.path.join(scratch, "workers")
+            # the serial run (one process for all the columns) proceeds in the
+            # background in its own directory while the worker commands run
+            serial_proc = fresh_python_start(["cli", csvpath, "--output", out_s, "--codecs", regex], hs[0])
+            rc, so, se = fresh_python(["cli", csvpath, "--parallel", "--output", out_w, "--codecs", regex], hs[1])
+            if rc != 0:
+                return viol("C24/multi/parallel-emission-failed", "cli --parallel failed for columns %r: rc=%r %s" % (cols, rc, se[-400:]))
+            codes = [l.split(" ", 1)[1].strip() for l in so.splitlines() if l.startswith("vc2-test-case-generator-worker ")]
+            order = list(range(len(codes)))
+            random.Random(case["order_seed"]).shuffle(order)
+            g = max(case["groups"], (len(codes) + 59) // 60)
+            for k in range(g):
+                part = [codes[i] for i in order[k::g]]
+                if not part:
+                    continue
+                rc, so, se = fresh_python(["worker"] + part, hs[(k + 2) % len(hs)])
+                stats["fresh_interpreters"] += 1
+                if rc != 0:
+                    return viol("C24/multi/worker-failed", "worker commands failed in a fresh interpreter: %s" % se[-600:])
+            try:
+                so, se = serial_proc.communicate(timeout=900)
+            except subprocess.TimeoutExpired:
+                raise HarnessError("serial multi-column run exceeded 900 s")
+            rc = serial_proc.returncode
+            serial_proc = None
+            stats["fresh_interpreters"] += 2
+            if rc != 0:
+                return viol("C24/multi/serial-failed", "serial cli failed for columns %r in a fresh interpreter: rc=%r %s" % (cols, rc, se.decode(errors="replace")[-400:]))
+            serial, tree = real_tree(out_s), real_tree(out_w)
+            events.append(("trees", tree_digest(serial), len(serial), tree_digest(tree), len(tree)))
+            stats["runs:multi-column-arm"] += 1
+            stats["multi:columns"] += len(cols)
+            stats["multi:worker-commands"] += len(codes)
+            if tree != serial:
+                diff = sorted(p for p in set(tree) | set(serial) if tree.get(p) != serial.get(p))
+                return viol(
+                    "C24/multi/serial-differs-from-workers",
+                    "one serial process generating columns %r (%s) wrote %d files, the %d emitted worker commands run in %d fresh processes wrote %d; %d paths differ, e.g. %r"
+                    % (cols, case["csv"], len(serial), len(codes), g, len(tree), len(diff), diff[:6]),
+                )
+            return Outcome(OK, events, stats=stats, nontrivial=True, key=key)
+        finally:
+            if serial_proc is not None:
+                serial_proc.kill()
+                serial_proc.communicate()
+            shutil.rmtree(scratch, ignore_errors=True)
+
     def explicate(self, case):
         """Replace the seeded policy by the explicit schedule it produced."""
-        if "schedule" in case or case.get("fresh"):
+        if "schedule" in case or case.get("fresh") or case.get("multi"):
             return case
         ref = reference(case["codec"])
         if ref["cmds"] is None or ref["mutated"] or ref["error"] is not None:
@@ -352,6 +454,13 @@ class C24(Spec):
         return {"codec": case["codec"], "tasks": tasks, "schedule": baton.trace, "from_policy": case["policy"]}
 
     def shrink(self, case):
+        if case.get("multi"):
+            for fams in shrink_list(case["families"]):
+                if fams:
+                    yield dict(case, families=fams)
+            if case["groups"] > 1:
+                yield dict(case, groups=1)
+            return
         if case.get("fresh"):
             if case["groups"] > 1:
                 yield dict(case, groups=1)
@@ -380,6 +489,8 @@ class C24(Spec):
     def execute(self, case):
         if case.get("fresh"):
             return self.execute_fresh(case)
+        if case.get("multi"):
+            return self.execute_multi(case)
         stats = Counter()
         codec = case["codec"]
         ref = reference(codec)
@@ -650,7 +761,7 @@ class C23(Spec):
         "a metadata file that is damaged (not valid UTF-8 JSON with in-range fields, judged by a harness-side reader) can never be shown to match: exit 0 is a violation, any other status or an exception is accepted",
     ]
     rule = (
-        "each run = a seeded format (1x1..24x16, 4:4:4/4:2:2/4:2:0, frames/fields, bit depths 1-64 incl. non-byte "
+        "each run = a seeded format (1x1..24x16, 4:4:4/4:2:2/4:2:0, frames/fields, bit depths 1-129 incl. non-byte "
         "multiples), in-range samples and a picture number up to 2^32-1, written by the real file_format.write to two "
         "directories of a simulated file system; read back by the real reader (must be identical); then an explicit list "
         "of at-rest faults on one side (sample-bit flips, padding-bit flips, truncation, extension, changed picture "
@@ -666,10 +777,20 @@ class C23(Spec):
         hs, vs = W.HSUB[cdf], W.VSUB[cdf] * (2 if pcm else 1)
         w = rng.choice([1, 2, 3, 5, 8, 12]) * hs
         h = rng.choice([1, 2, 3, 4, 8]) * vs
-        d = rng.choice([1, 2, 3, 7, 8, 9, 10, 12, 15, 16, 17, 24, 31, 32, 33, 48, 63, 64])
-        dc = rng.choice([d, d, 8, 1, 10, 64])
-        lx = (1 << d) - 1 if rng.random() < 0.6 else rng.randrange(1 << (d - 1), 1 << d)
-        cx = (1 << dc) - 1 if rng.random() < 0.6 else rng.randrange(1 << (dc - 1), 1 << dc)
+        d = rng.choice([1, 2, 3, 7, 8, 9, 10, 12, 15, 16, 17, 24, 31, 32, 33, 48, 63, 64, 65, 100, 128, 129])
+        dc = rng.choice([d, d, 8, 1, 10, 64, 12])
+
+        def exc(bits):
+            # largest / an exact power of two / anything needing ``bits`` bits
+            r = rng.random()
+            if r < 0.5:
+                return (1 << bits) - 1
+            if r < 0.7:
+                return 1 << (bits - 1)
+            return rng.randrange(1 << (bits - 1), 1 << bits)
+
+        lx = exc(d)
+        cx = exc(dc)
         fmt = {"w": w, "h": h, "cdf": cdf, "pcm": pcm, "luma_exc": lx, "luma_off": rng.choice([0, 16]), "cd_exc": cx, "cd_off": rng.choice([0, (cx + 1) // 2])}
         npics = rng.choice([1, 1, 1, 2, 3])
         r = rng.random()
